@@ -761,3 +761,68 @@ func consDump(p *consensus.Payload) string {
 	}
 	return s
 }
+
+// msgExtra: a Message value is encoded more than once in production (Server.iteratePeersWithSendMsg serialises one
+// value with and without compression for different peers; a received message may be relayed): every encoding of the
+// same value, in whatever order the compression choices come, has to be a frame a peer decodes to the same payload,
+// and a decoded value re-encoded as it is has to decode again.
+func msgExtra(sr bool) func(v any, e []byte, lab func(string)) error {
+	return func(v any, e []byte, lab func(string)) error {
+		m0 := v.(*network.Message)
+		if m0.Payload == nil {
+			return nil
+		}
+		ps := &segWriter{}
+		if serEnc(m0.Payload, ps) != nil {
+			return nil
+		}
+		want := ps.buf.Bytes()
+		checkFrame := func(what string, fr []byte) error {
+			dm := &network.Message{StateRootInHeader: sr}
+			if err := dm.Decode(io.NewBinReaderFromBuf(fr)); err != nil {
+				// the vendored LZ4 decoder refusing a frame the reference decoder opens is the listed finding
+				if pl, ok := framePayload(fr); ok && bytes.Equal(pl, want) && fr[0]&byte(network.Compressed) != 0 {
+					lab("msg/lz4-known")
+					return nil
+				}
+				return fmt.Errorf("%s: the frame (flags %d, %d bytes) does not decode: %v", what, fr[0], len(fr), err)
+			}
+			pl, ok := framePayload(fr)
+			if !ok || !bytes.Equal(pl, want) {
+				return fmt.Errorf("%s: the frame (flags %d, %d bytes) does not carry the payload encoding", what, fr[0], len(fr))
+			}
+			return nil
+		}
+		for _, seq := range [][]bool{{true, true}, {true, false}, {false, true}, {false, false, true}} {
+			m := &network.Message{Command: m0.Command, Payload: m0.Payload, StateRootInHeader: sr}
+			for i, allow := range seq {
+				fr, err := m.BytesCompressed(allow)
+				if err != nil {
+					return fmt.Errorf("BytesCompressed(%v) #%d of %v: %v", allow, i, seq, err)
+				}
+				if !allow && fr[0]&byte(network.Compressed) != 0 {
+					return fmt.Errorf("BytesCompressed(false) #%d of %v gives a frame flagged as compressed", i, seq)
+				}
+				if err := checkFrame(fmt.Sprintf("BytesCompressed(%v) #%d of the sequence %v on one Message value", allow, i, seq), fr); err != nil {
+					return err
+				}
+				if fr[0]&byte(network.Compressed) != 0 {
+					lab("msg/compressed-frame")
+				}
+			}
+		}
+		if len(e) > 0 {
+			dm := &network.Message{StateRootInHeader: sr}
+			if err := dm.Decode(io.NewBinReaderFromBuf(e)); err == nil {
+				fr, err := dm.Bytes()
+				if err != nil {
+					return fmt.Errorf("Bytes() of a decoded message: %v", err)
+				}
+				if err := checkFrame("Bytes() of the value decoded from its own frame", fr); err != nil {
+					return err
+				}
+			}
+		}
+		return nil
+	}
+}
